@@ -187,6 +187,82 @@ theorem C05_illtyped_spec (env : Env) (rf : Form → GS → Res → Option (List
   have : ¬ tys.length < i.args.length := by omega
   simp [hsig, hall, hb, this, hw]
 
+/-! ## Frame: operators outside the property's list change no glyph -/
+
+/-- **Frame theorem, interpreter, unconditional**: a keyword that is not one of the 33 operators of
+the property — path construction and painting, clipping `W W*`, marked content `BMC BDC EMC MP DP`,
+`BX EX`, `sh`, the general graphics state operators, `BI ID EI`, and any unknown keyword — shows no
+glyph and leaves every component of the interpreter and device state as it was, except that
+`execute` takes the operands of the operator (a suffix of the operand stack) away.  For **every**
+state, operand stack and form runner. -/
+theorem C05_unlisted_frame (env : Env) (rf : Form → MState → List Glyph × Bool) (m : MState) (n : String) :
+    ∃ k, execTok env rf m (.op (.other n)) = ({ m with argstack := m.argstack.take k }, []) := by
+  have hc : ∀ (st : MState) (args : List Obj), call env rf st (Op.other n) args = (st, []) := by
+    intro st args; simp [call]
+  simp only [execTok]
+  cases arity (Op.other n) with
+  | none => exact ⟨m.argstack.length, by simp⟩
+  | some k =>
+    cases k with
+    | zero => exact ⟨m.argstack.length, by simp [hc]⟩
+    | succ k =>
+      refine ⟨m.argstack.length - (k + 1), ?_⟩
+      simp only [pop, hc]
+      split <;> rfl
+
+/-- **Frame theorem for the listed neutral operators** (Tables 57, 59–61, 77, 320, 32): with at most
+the operands ISO gives them — of any type, `null`s included — the interpreter is afterwards in
+exactly the state it was in: nothing is left on the operand stack either.  The operand count comes
+from the regenerated `do_*` table (`neutral_arity`). -/
+theorem C05_unlisted_noop (env : Env) (rf : Form → MState → List Glyph × Bool) (m : MState) (n : String) (k : Nat)
+    (args : List Obj) (hk : neutralArity n = some k) (hlen : args.length ≤ k) (hargs : m.argstack = []) :
+    execToks env rf m (Instr.toks ⟨.other n, args⟩) = (m, []) := by
+  rw [execToks_instr]
+  simp only
+  rw [hargs, List.nil_append]
+  have ha := neutral_arity n k hk
+  have hle := pushed_length_le args
+  have hc : ∀ (st : MState) (a : List Obj), call env rf st (Op.other n) a = (st, []) := by
+    intro st a; simp [call]
+  cases k with
+  | zero =>
+    have : args = [] := by
+      cases args with
+      | nil => rfl
+      | cons a r => simp at hlen
+    subst this
+    rw [show pushed [] = [] from rfl, mstate_args_nil m hargs, execTok_zero env rf m _ ha, hc]
+  | succ k =>
+    by_cases hlt : (pushed args).length < k + 1
+    · rw [execTok_short env rf m _ k _ ha hlt, mstate_args_nil m hargs]
+    · rw [execTok_exact env rf m _ k _ ha (by omega), mstate_args_nil m hargs, hc]
+
+/-- … and the text model: wherever it admits such an operator (Figure 9, operand count) the
+operator changes neither the graphics state, the text object, the saved states nor the resources,
+and shows nothing.  With `C05_step`/`C05_program` this puts every page that mixes text with
+vector graphics, clipping and marked content inside the proved equality. -/
+theorem C05_unlisted_spec (env : Env) (rf : Form → GS → Res → Option (List Glyph)) (s s' : SState) (n : String)
+    (args : List Obj) (gl : List Glyph) (h : step env rf s ⟨.other n, args⟩ = some (s', gl)) : s' = s ∧ gl = [] := by
+  obtain ⟨tys, _, _, _, _, hcase⟩ := step_inv h
+  rcases hcase with ⟨_, rfl, rfl⟩ | ⟨_, happ⟩
+  · exact ⟨rfl, rfl⟩
+  · simp only [apply, Option.some.injEq, Prod.mk.injEq] at happ
+    exact ⟨happ.1.symm, happ.2.symm⟩
+
+/-- The text model admits each of them with the operand count of the ISO tables, at page level. -/
+theorem C05_unlisted_admitted (env : Env) (rf : Form → GS → Res → Option (List Glyph)) (s : SState) (n : String)
+    (k : Nat) (args : List Obj) (hk : neutralArity n = some k) (hlen : args.length ≤ k)
+    (hb : args.any Obj.isBool = false) (hpage : s.txt = none) :
+    step env rf s ⟨.other n, args⟩ = some (s, []) := by
+  unfold step
+  simp only [sig, hk, Option.map_some, hpage, Option.isSome_none, allowed, isTextState, isColour, Bool.false_eq_true,
+    if_false, Bool.false_or, Option.isSome_some, Bool.not_true, hb, List.length_replicate]
+  have : ¬ k < args.length := by omega
+  simp only [this, if_false]
+  split
+  · rfl
+  · simp [apply]
+
 /-! ## The rules of 9.3–9.4, stated on the interpreter alone -/
 
 /-- Showing one string, horizontal writing: the pen moves by `tx = (w0·Tfs + Tc + Tw?)·Th` per
@@ -377,6 +453,42 @@ example :
     r.2.length = 1 ∧ r.1.fuelOk = true ∧
       TextModel.runPage env 5 MATRIX_IDENTITY ⟨[("F1", 0)], [("X0", 0)], [], []⟩
         [⟨.Tf, [.name "F1", .num 10]⟩, ⟨.Do, [.name "X0"]⟩] = none := by decide +kernel
+
+/-- A page mixing text with vector graphics, clipping, marked content and general graphics state:
+`/F1 10 Tf q 0 0 10 10 re W n /Span BMC 2 w [3] 0 d BT /P /MC0 BDC 1 J 5 6 Td (!) Tj EMC ET EMC 0 0 m 5 5 l S
+1 2 3 4 5 6 c h f* /Sh0 sh re Q` (the last `re` has lost its operands) — the text model gives it the
+one glyph of the page without these operators, at the same place (hypotheses of
+`C05_unlisted_spec`, `C05_unlisted_admitted` and `C05_program` are met by a non-trivial page). -/
+private def exMixed : List Instr :=
+  [⟨.Tf, [.name "F1", .num 10]⟩, ⟨.q, []⟩, ⟨.other "re", [.num 0, .num 0, .num 10, .num 10]⟩, ⟨.other "W", []⟩,
+   ⟨.other "n", []⟩, ⟨.other "BMC", [.name "Span"]⟩, ⟨.other "w", [.num 2]⟩, ⟨.other "d", [.arr [.num 3], .num 0]⟩,
+   ⟨.BT, []⟩, ⟨.other "BDC", [.name "P", .name "MC0"]⟩, ⟨.other "J", [.num 1]⟩, ⟨.Td, [.num 5, .num 6]⟩,
+   ⟨.Tj, [.str [33]]⟩, ⟨.other "EMC", []⟩, ⟨.ET, []⟩, ⟨.other "EMC", []⟩,
+   ⟨.other "m", [.num 0, .num 0]⟩, ⟨.other "l", [.num 5, .num 5]⟩, ⟨.other "S", []⟩,
+   ⟨.other "c", [.num 1, .num 2, .num 3, .num 4, .num 5, .num 6]⟩, ⟨.other "h", []⟩, ⟨.other "f_a", []⟩,
+   ⟨.other "sh", [.name "Sh0"]⟩, ⟨.other "re", []⟩, ⟨.Q, []⟩]
+
+example : (TextModel.runPage exEnv 3 MATRIX_IDENTITY exRes exMixed).map (fun l => l.map (fun g => (g.m.2.2.2.2.1, g.m.2.2.2.2.2)))
+    = some [(5, 6)] ∧
+    TextModel.runPage exEnv 3 MATRIX_IDENTITY exRes exMixed =
+      TextModel.runPage exEnv 3 MATRIX_IDENTITY exRes
+        (exMixed.filter (fun i => match i.op with | .other _ => false | _ => true)) := by decide +kernel
+
+/-- … and the interpreter reports the same glyph (`C05_program` instantiated). -/
+example : (Interp.runPage exEnv 3 MATRIX_IDENTITY exRes [exMixed.flatMap Instr.toks]).2.map (fun g => (g.m.2.2.2.2.1, g.m.2.2.2.2.2))
+    = [(5, 6)] := by decide +kernel
+
+/-- Path painting inside a text object is outside Figure 9: the text model gives no meaning, while
+marked content and `w` are admitted there. -/
+example : neutralArity "re" = some 4 ∧ neutralArity "BDC" = some 2 ∧ neutralArity "xyz" = none ∧
+    allowed true (.other "re") = false ∧ allowed true (.other "BMC") = true ∧ allowed false (.other "re") = true := by
+  decide +kernel
+
+/-- `C05_unlisted_frame` on a state with operands: `1 2 3 re` takes all three away, `7 xyz` none. -/
+example : (execTok exEnv (fun _ _ => ([], true)) { MState.init MATRIX_IDENTITY exRes with argstack := [.num 1, .num 2, .num 3] }
+      (.op (.other "re"))).1.argstack = [] ∧
+    (execTok exEnv (fun _ _ => ([], true)) { MState.init MATRIX_IDENTITY exRes with argstack := [.num 7] }
+      (.op (.other "xyz"))).1.argstack = [.num 7] := by decide +kernel
 
 /-- The initial states are related (hypothesis `hR` of `C05_step` is satisfiable). -/
 example : R exEnv (MState.init MATRIX_IDENTITY exRes) ⟨GS.init MATRIX_IDENTITY, [], none, exRes⟩ :=
